@@ -157,8 +157,13 @@ macro_rules! typed_list {
 
 /// what routecore reports about `bytes` under `cfg`
 pub(crate) fn observe(cfg: &SessionConfig, bytes: &Vec<u8>) -> String {
-    let m = match UpdateMessage::from_octets(bytes, cfg) { Ok(m) => m, Err(_) => return "err".into() };
-    let bound = bytes.len();
+    let m = match UpdateMessage::from_octets(&bytes[..], cfg) { Ok(m) => m, Err(_) => return "err".into() };
+    observe_msg(&m, bytes.len())
+}
+
+/// the observation of an already decoded message (also used by C15 on
+/// `RouteMonitoring::bgp_update`); `bound` limits every iteration
+pub(crate) fn observe_msg(m: &UpdateMessage<&[u8]>, bound: usize) -> String {
     let four = m.pdu_parse_info().four_octet_enabled();
     let _ = four;
     let mut g: Vec<String> = Vec::new();
